@@ -160,6 +160,9 @@ def _norm_expr(node):
             and isinstance(node.func.value.args[2], ast.Name) and node.func.value.args[2].id == "sgname")
 
 
+MARKERS = {"rot": (7, -11), "syscond": (3, 5), "trans": (Fraction(1, 4), Fraction(3, 4))}
+
+
 def check_lookup_model(ctx):
     m = core.module("xfab/sg.py")
     ctx.saw(m, "sg.__init__")
@@ -169,8 +172,6 @@ def check_lookup_model(ctx):
     if args != ["self", "sgno", "sgname", "cell_choice"]:
         raise AnalysisError("sg.__init__ signature changed: %s" % args)
     defaults = [tables.literal(d) for d in init.args.defaults]
-    ctx.check(defaults == [None, None, "standard"], "C04:lookup:defaults",
-              "defaults of sg.__init__ are %r" % (defaults,), where)
     # sg.sg is evaluated (E7) for every number in both settings and for every key of the dictionary in five spellings:
     # which table class it requests, with which cell_choice, and that the nine attributes come from that table object.
     from xfabsa.poly import Rat
@@ -191,7 +192,8 @@ def check_lookup_model(ctx):
             requests.append((cname, bound))
             for a in tables.SG_ATTRS:
                 if a in ("syscond", "rot", "trans"):
-                    o.attrs[a] = [Rat.atom("%s@%d" % (a, i)) for i in range(2)]
+                    # marker VALUES (what is copied from where); the tables' own values are decided by props/sgobject.py
+                    o.attrs[a] = [Rat.const(v_) for v_ in MARKERS[a]]
                 else:
                     o.attrs[a] = Sym("%s@" % a, "other")
             return o
@@ -199,10 +201,14 @@ def check_lookup_model(ctx):
     ev = ObjEvaluator(m, inline=set(), import_policy=ipol, max_depth=8)
 
     def lookup(sgno, sgname, cell_choice):
-        """-> (class requested, cell_choice handed to it, attributes that are NOT the table's own) | ('<Error>', name, None)"""
+        """-> (class requested, cell_choice handed to it, attributes that are NOT the table's own) | ('<Error>', name, None);
+        cell_choice None: not passed (the constructor's own default)"""
         del requests[:]
         try:
-            o = ev.instantiate("sg", [], {"sgno": sgno, "sgname": sgname, "cell_choice": cell_choice}, node)
+            kw_ = {"sgno": sgno, "sgname": sgname}
+            if cell_choice is not None:
+                kw_["cell_choice"] = cell_choice
+            o = ev.instantiate("sg", [], kw_, node)
         except (PyRaise, RaiseReached) as e:
             return "<%s>" % exc_name_of(e), None, None
         if len(requests) != 1:
@@ -213,7 +219,8 @@ def check_lookup_model(ctx):
             got = o.attrs.get(a)
             if a in ("syscond", "rot", "trans"):
                 G = got if isinstance(got, Arr) else None
-                ok = G is not None and [x.key() for x in G.flat()] == ["%s@%d" % (a, i) for i in range(2)]
+                ok = G is not None and len(G.flat()) == 2 and all(isinstance(x, Rat) and x.is_const() and x.const_value() == v_
+                                                                   for x, v_ in zip(G.flat(), MARKERS[a]))
             else:
                 ok = isinstance(got, Sym) and got.name == "%s@" % a
             if not ok:
@@ -234,11 +241,11 @@ def check_lookup_model(ctx):
         spaced = " ".join(key)
         for spelling in (key, key.upper(), key.capitalize(), spaced, " " + key[:1].upper() + key[1:] + " "):
             nvar += 1
-            got = lookup(None, spelling, "standard")
+            got = lookup(None, spelling, None)
             want_cc = "rhombohedral" if (key[0] == "r" and key[-1] == "r") else "standard"
             if got[0] != cname:
                 badname.append((spelling, got[0]))
-            elif got[1] != want_cc:
+            elif got[1] != want_cc and not (want_cc == "standard" and got[1] == "<default>"):
                 badr.append((spelling, got[1]))
             for a in got[2] or []:
                 badcopy.setdefault(a, (spelling,))
@@ -248,7 +255,11 @@ def check_lookup_model(ctx):
                        sample={"spellings_evaluated": nvar, "example": ["R -3 C R", "r-3cr", "R-3cr"]})
     okr = ctx.check(not badr, "C04:lookup:r-suffix",
                     "cell_choice is not 'rhombohedral' exactly when the normalised name starts and ends with 'r': %s" % badr[:3], where)
-    none = lookup(None, None, "standard")
+    # a number without a setting is the standard setting (whatever the spelling of the default)
+    dflt = lookup(Rat.const(146), None, None)
+    ctx.check(dflt[0] == "Sg146" and dflt[1] in ("standard", "<default>"), "C04:lookup:defaults",
+              "sg.sg(sgno=146) without a cell_choice requests %s" % (dflt[:2],), where)
+    none = lookup(None, None, None)
     ctx.check(none[0].startswith("<"), "C04:lookup:neither", "sg.sg() without number and name does not raise (%s)" % (none[:2],), where)
     for a in tables.SG_ATTRS:
         ctx.check(a not in badcopy, "C04:lookup:copy:%s" % a,
